@@ -102,6 +102,20 @@ func (m *Monitor) onEvent(ev Event) {
 				}
 			}
 			m.rhsRoot[b] = ev.Root
+			// a discarded bind takes its own scopes with it: everything any run of a dead
+			// bind's function created is dead too
+			for changed := true; changed; {
+				changed = false
+				for id, ref := range m.E.Nodes {
+					if ref == nil || m.dead[id] || ref.Scope < 0 {
+						continue
+					}
+					if m.dead[ref.Scope] { // Scope is the creating bind's lhs-change id
+						m.dead[id] = true
+						changed = true
+					}
+				}
+			}
 		}
 	case "EvPassEnd":
 		m.endVals = map[int]int{}
@@ -239,6 +253,11 @@ func (m *Monitor) reachable() map[int]bool {
 		}
 		seen[id] = true
 		ref := m.E.Nodes[id]
+		if m.invalided[id] {
+			// an invalidated node has given up its inputs (it will never recompute): an observer
+			// that still holds it keeps the node itself registered, nothing behind it
+			return
+		}
 		switch ref.Kind {
 		case "BindMain":
 			visit(ref.Bind.B)
@@ -453,7 +472,21 @@ func (m *Monitor) passOracles(op Op, s Sample) {
 	}
 	for n := range changed {
 		if e.Registered(n) && updCount[n] != 1 && s.Class == "XOk" {
-			m.add("C13", "handler-missed", fmt.Sprintf("n%d changed in the pass and is still in the graph but its OnUpdate ran %d times", n, updCount[n]))
+			kind := "handler-missed"
+			// did the node leave the graph after it changed and re-enter it later in this pass?
+			seenChange, left := false, false
+			for _, ev := range s.Raw {
+				if ev.N == n && (ev.K == "EvInvoked" || (ev.K == "EvCutoff" && !ev.Verdict)) {
+					seenChange = true
+				}
+				if ev.N == n && ev.K == "EvUnnec" && seenChange {
+					left = true
+				}
+			}
+			if left {
+				kind += "@relinked-in-pass"
+			}
+			m.add("C13", kind, fmt.Sprintf("n%d changed in the pass and is still in the graph but its OnUpdate ran %d times", n, updCount[n]))
 		}
 	}
 	for id, or := range e.Obs {
@@ -491,6 +524,11 @@ func (m *Monitor) passOracles(op Op, s Sample) {
 	m.failedSince = false
 	// C01: observer values equal a from-scratch evaluation (values as of pass end)
 	for id, or := range e.Obs {
+		if m.dead[or.Target] {
+			// the observed node belongs to a discarded right-hand side: it is invalidated and by
+			// design never recomputes again (C08), so it is not part of the current definition
+			continue
+		}
 		want, ok := m.evalAtEnd(or.Target)
 		if !ok {
 			continue
